@@ -5,8 +5,16 @@ Property theorems only (helpers: Proofs/BitsLemmas, BitsTable, BitstrLemmas, Bit
 Every statement quantifies over every heap `h` and every well-formed handle `s`: any start offset,
 any slack after `end_`, any stale bits outside the range, borrowed or owned, shared or unique.
 The right-hand sides mention only `bits h s` (the denoted bit sequence), hence offset independence.
+
+PROVED here: toUint_be/le (+exact), offset independence (uint, int, floats), toInt_spec, fromInt_wf,
+fromInt_bits_be, fromInt_toUint, fromInt_toInt, sext_mod_id, byte_layout_le/be, f32/f64 round trips.
+`byte_layout_*` are stated with `(v % 2^128).toNat` (= `v as u128`); `leBytes k`/`beBytes k` read only its low
+8k bits.  NOT carried by theorems (correspondence + oracle only): the language words (thin layer over these
+functions, Driver/C05.lean) and the hardware conversions `f64 as f32` / `f32 as f64` inside `f32!` / `f32`.
+Outside the property (widths > 128): `from_int` uses `i128::wrapping_shr`, whose count is masked with 127; the
+model reproduces that (`shrByte`), the theorems assume `n ≤ 128`.
 -/
-import XehModel.Proofs.BitstrHeap
+import XehModel.Proofs.BitstrCodec
 
 namespace Xeh.C05
 open Xeh Xeh.Bits Xeh.Bitstr
@@ -44,6 +52,148 @@ theorem toUint_offset_independent (h₁ h₂ : Heap) (s₁ s₂ : Handle) (wf₁
   cases o
   · rw [toUint_le h₁ s₁ wf₁, toUint_le h₂ s₂ wf₂, heq]
   · rw [toUint_be h₁ s₁ wf₁, toUint_be h₂ s₂ wf₂, heq]
+
+/-! ### signed decoding -/
+
+/-- `to_int` is the two's-complement reading of `to_uint` for every width 1..128 (both orders) -/
+theorem toInt_spec (h : Heap) (s : Handle) (wf : WF h s) (o : Byteorder)
+    (h1 : 1 ≤ s.end_ - s.start) (h128 : s.end_ - s.start ≤ 128) :
+    ∃ u, (h.view s).toUint o = .ok u ∧ u < 2 ^ (s.end_ - s.start) ∧
+      (h.view s).toInt o = .ok (sext (s.end_ - s.start) u) := by
+  have hbl := bits_length h s wf
+  cases o
+  · refine ⟨leVal (bits h s), toUint_le_exact h s wf h128, ?_, ?_⟩
+    · have := leVal_lt (bits h s); rw [hbl] at this; exact this
+    · exact View.toInt_spec _ _ _ (toUint_le_exact h s wf h128)
+        (by have := leVal_lt (bits h s); rw [hbl] at this; exact this) h1 h128
+  · refine ⟨beVal (bits h s), toUint_be_exact h s wf h128, ?_, ?_⟩
+    · have := beVal_lt (bits h s); rw [hbl] at this; exact this
+    · exact View.toInt_spec _ _ _ (toUint_be_exact h s wf h128)
+        (by have := beVal_lt (bits h s); rw [hbl] at this; exact this) h1 h128
+
+theorem toInt_offset_independent (h₁ h₂ : Heap) (s₁ s₂ : Handle) (wf₁ : WF h₁ s₁) (wf₂ : WF h₂ s₂)
+    (heq : bits h₁ s₁ = bits h₂ s₂) (o : Byteorder) :
+    (h₁.view s₁).toInt o = (h₂.view s₂).toInt o := by
+  have hu := toUint_offset_independent h₁ h₂ s₁ s₂ wf₁ wf₂ heq o
+  have hl : s₁.end_ - s₁.start = s₂.end_ - s₂.start := by
+    rw [← bits_length h₁ s₁ wf₁, ← bits_length h₂ s₂ wf₂, heq]
+  exact toInt_congr _ _ o hu hl
+
+/-! ### packing: `from_int` for every width up to 128, every `Int` value (values wider than the field included) -/
+
+/-- the packed value is well-formed and has exactly `n` bits -/
+theorem fromInt_wf (h : Heap) (v : Int) (n : Nat) (o : Byteorder) :
+    WF (fromInt h v n o).1 (fromInt h v n o).2 ∧ ((fromInt h v n o).2.end_ - (fromInt h v n o).2.start = n) :=
+  ⟨fromInt_WF h v n o, rfl⟩
+
+/-- big-endian packing writes the `n` low bits of the value, most significant first -/
+theorem fromInt_bits_be (h : Heap) (v : Int) (n : Nat) (hn : n ≤ 128) :
+    bits (fromInt h v n .big).1 (fromInt h v n .big).2 = bitsOfNat n (v % 2 ^ n).toNat := by
+  rw [fromInt_bits]
+  simp only [fromIntBytes]
+  rw [fromIntBE_bits v n n (Nat.le_refl _) hn, ← bitsOfNat_mod, asU128_mod v n hn]
+
+/-- packing then unpacking returns the value reduced modulo 2^n (unsigned), both byte orders -/
+theorem fromInt_toUint (h : Heap) (v : Int) (n : Nat) (o : Byteorder) (hn : n ≤ 128) :
+    ((fromInt h v n o).1.view (fromInt h v n o).2).toUint o = .ok (v % 2 ^ n).toNat := by
+  have wf := fromInt_WF h v n o
+  cases o
+  · rw [toUint_le_exact _ _ wf hn, fromInt_bits]
+    simp only [fromIntBytes]
+    have := fromIntLE_leVal v n hn n 0 (by omega) rfl (Nat.zero_le _)
+    simp only [Nat.sub_zero, Nat.pow_zero, Nat.div_one] at this
+    rw [this, asU128_mod v n hn]
+  · rw [toUint_be_exact _ _ wf hn, fromInt_bits_be h v n hn, beVal_bitsOfNat]
+    rw [Nat.mod_eq_of_lt (emod_toNat_lt v n)]
+
+/-- … and two's-complement sign extension of that for the signed reading -/
+theorem fromInt_toInt (h : Heap) (v : Int) (n : Nat) (o : Byteorder) (h1 : 1 ≤ n) (hn : n ≤ 128) :
+    ((fromInt h v n o).1.view (fromInt h v n o).2).toInt o = .ok (sext n (v % 2 ^ n).toNat) := by
+  have hu := fromInt_toUint h v n o hn
+  exact View.toInt_spec _ o _ hu (emod_toNat_lt v n) h1 hn
+
+/-- a value inside the signed range of the field survives the signed round trip unchanged -/
+theorem sext_mod_id (v : Int) (n : Nat) (h1 : 1 ≤ n) (hlo : -(2 : Int) ^ (n - 1) ≤ v) (hhi : v < 2 ^ (n - 1)) :
+    sext n (v % 2 ^ n).toNat = v := by
+  have hp : (2 : Int) ^ n = 2 * 2 ^ (n - 1) := by
+    have : n = (n - 1) + 1 := by omega
+    conv => lhs; rw [this, Int.pow_succ]
+    omega
+  have hpn : (2 : Nat) ^ n = 2 * 2 ^ (n - 1) := by
+    have : n = (n - 1) + 1 := by omega
+    conv => lhs; rw [this, Nat.pow_succ]
+    omega
+  have hP : (0 : Int) < 2 ^ (n - 1) := Int.pow_pos (by decide)
+  have hc : ((2 ^ (n - 1) : Nat) : Int) = (2 : Int) ^ (n - 1) := by simp
+  unfold sext
+  by_cases hv : 0 ≤ v
+  · have : v % 2 ^ n = v := Int.emod_eq_of_lt hv (by omega)
+    rw [this]
+    have hvn : ((v.toNat : Nat) : Int) = v := Int.toNat_of_nonneg hv
+    rw [if_pos (by omega), hvn]
+  · have : v % 2 ^ n = v + 2 ^ n := by
+      have h2 : (v + 2 ^ n) % 2 ^ n = v % 2 ^ n := Int.add_emod_right ..
+      rw [← h2]; exact Int.emod_eq_of_lt (by omega) (by omega)
+    rw [this]
+    have hvn : (((v + 2 ^ n).toNat : Nat) : Int) = v + 2 ^ n := Int.toNat_of_nonneg (by omega)
+    rw [if_neg (by omega), hvn]; omega
+
+/-! ### byte-multiple widths agree with the platform's standard byte layouts -/
+
+theorem byte_layout_le (v : Int) (n : Nat) (h8 : n % 8 = 0) (hn : n ≤ 128) :
+    fromIntBytes v n .little = leBytes (n / 8) (v % 2 ^ 128).toNat := by
+  simp only [fromIntBytes]
+  have := fromIntLE_bytes v n h8 hn n 0 (by omega) rfl (Nat.zero_le _)
+  simpa [asU128] using this
+
+theorem byte_layout_be (v : Int) (n : Nat) (h8 : n % 8 = 0) (hn : n ≤ 128) :
+    fromIntBytes v n .big = beBytes (n / 8) (v % 2 ^ 128).toNat := by
+  simp only [fromIntBytes]
+  exact fromIntBE_bytes v n n (Nat.le_refl _) h8 hn
+
+/-! ### floats: bit patterns round-trip exactly (NaN payloads, infinities, subnormals are just patterns) -/
+
+theorem f32_bits_roundtrip (h : Heap) (x : Nat) (hx : x < 2 ^ 32) (o : Byteorder) :
+    ((fromF32 h x o).1.view (fromF32 h x o).2).toF32 o = .ok x := by
+  unfold fromF32 fromVec View.toF32
+  simp only
+  rw [alloc_view]
+  cases o
+  · simp only [floatBytes]
+    rw [toFloatBits_fresh (leBytes 4 x) (leBytes_lt 4 x) .little 4 (leBytes_length 4 x)]; simp only
+    have hb : (leBytes 4 x).reverse = beBytes 4 x := rfl
+    rw [hb, beBytesVal_beBytes, Nat.mod_eq_of_lt (by omega)]
+  · simp only [floatBytes]
+    have hl : (beBytes 4 x).length = 4 := by simp [beBytes, leBytes_length]
+    rw [toFloatBits_fresh (beBytes 4 x) (by intro b hb; exact leBytes_lt 4 x b (by simpa [beBytes] using hb)) .big 4 hl]; simp only
+    rw [beBytesVal_beBytes, Nat.mod_eq_of_lt (by omega)]
+
+theorem f64_bits_roundtrip (h : Heap) (x : Nat) (hx : x < 2 ^ 64) (o : Byteorder) :
+    ((fromF64 h x o).1.view (fromF64 h x o).2).toF64 o = .ok x := by
+  unfold fromF64 fromVec View.toF64
+  simp only
+  rw [alloc_view]
+  cases o
+  · simp only [floatBytes]
+    rw [toFloatBits_fresh (leBytes 8 x) (leBytes_lt 8 x) .little 8 (leBytes_length 8 x)]; simp only
+    have hb : (leBytes 8 x).reverse = beBytes 8 x := rfl
+    rw [hb, beBytesVal_beBytes, Nat.mod_eq_of_lt (by omega)]
+  · simp only [floatBytes]
+    have hl : (beBytes 8 x).length = 8 := by simp [beBytes, leBytes_length]
+    rw [toFloatBits_fresh (beBytes 8 x) (by intro b hb; exact leBytes_lt 8 x b (by simpa [beBytes] using hb)) .big 8 hl]; simp only
+    rw [beBytesVal_beBytes, Nat.mod_eq_of_lt (by omega)]
+
+/-- float decoding reads the value only through `iter8`, i.e. it is a function of the bit sequence -/
+theorem toFloat_offset_independent (h₁ h₂ : Heap) (s₁ s₂ : Handle) (wf₁ : WF h₁ s₁) (wf₂ : WF h₂ s₂)
+    (heq : bits h₁ s₁ = bits h₂ s₂) (k : Nat) (o : Byteorder) :
+    (h₁.view s₁).toFloatBits k o = (h₂.view s₂).toFloatBits k o := by
+  unfold View.toFloatBits
+  rw [View.iter8_spec _ wf₁.view, View.iter8_spec _ wf₂.view]
+  have : (h₁.view s₁).bits = (h₂.view s₂).bits := heq
+  rw [this]
+
+/-- non-trivial instances: a 13-bit negative value, both orders -/
+example : sext 13 ((-3 : Int) % 2 ^ 13).toNat = -3 := by decide
 
 /-- hypotheses are satisfiable by a non-trivial state: a 13-bit field at bit offset 3 of a shared buffer -/
 example : WF (fromVec Heap.empty [0xab, 0xcd, 0xef]).1 ⟨3, 16, 0⟩ := by
